@@ -342,8 +342,19 @@ Section Reentrant.
                 | SRunning _ _ _ => hook "on_exit_running"
                 | _ => ret tt
                 end) ;;;
-          (* State.exit: a terminal state cannot be exited *)
-          if terminal (label_of cur) then raise EInvalidState else ret tt
+          (* State.exit: a terminal state cannot be exited; Waiting.exit releases a wait nobody will
+             resume any more (a coroutine still awaiting it is woken) *)
+          if terminal (label_of cur) then raise EInvalidState
+          else match cur with
+               | SWaiting fn msg data wid WfPending =>
+                   modify (fun w => w <| st := Some (SWaiting fn msg data wid (WfDone WkNull)) |>) ;;;
+                   w' <- get ;;
+                   match t0 w' with
+                   | PcAwaitWaiting wid' => when (Nat.eqb wid wid') (schedule (RWakeT0 WkNull))
+                   | _ => ret tt
+                   end
+               | _ => ret tt
+               end
     end.
 
   (* _enter_next_state; Some s' = StateEntryFailed(s') was raised by on_entering *)
@@ -530,6 +541,8 @@ Section Reentrant.
 
   (* @event(to_states=Excepted) fail(exception, trace_back) *)
   Definition fail (e : exn) : LM cret :=
+    w0 <- get ;;
+    if is_terminated w0 then ret (CrBool false) else
     transition_to (Some (SExcepted e)) ;;;
     w <- get ;;
     match st w with
@@ -749,10 +762,11 @@ Definition finish_step (x : exec_out) : LM unit :=
        | XoSuspended => ret None
        end ;;
      w <- get ;;
-     match intr w with
-     | Some a => run_action a next
-     | None => transition next
-     end)
+     if is_terminated w then ret tt        (* terminated from outside while the step was in flight *)
+     else match intr w with
+          | Some a => run_action a next
+          | None => transition next
+          end)
     (modify (fun w => w <| stepping := false |>) ;;; set_interrupt_action None).
 
 (* step_until_terminated / step from the loop head; fuel bounds the synchronous chain of steps *)
